@@ -14,6 +14,7 @@ from rules.util import strip
 
 INF = float("inf")
 TYPE_RANGE = {"u8": (0, 255), "u16": (0, 65535), "u32": (0, 2**32 - 1), "u64": (0, 2**64 - 1), "usize": (0, 2**64 - 1), "bool": (0, 1), "i32": (-2**31, 2**31 - 1), "i64": (-2**63, 2**63 - 1), "isize": (-2**63, 2**63 - 1), "char": (0, 0x10FFFF), "u128": (0, 2**128 - 1)}
+TYPE_RANGE.update({"std::num::Wrapping<u8>": (0, 255), "core::num::Wrapping<u8>": (0, 255), "std::num::Wrapping<u16>": (0, 65535), "std::num::Wrapping<u32>": (0, 2**32 - 1)})
 TOP = (-INF, INF)
 
 
@@ -60,7 +61,7 @@ class World:
         if not fs or idx >= len(fs):
             return TOP
         fty = fb.ty(fs[idx]["ty"])
-        if fty.k != "int":
+        if fty.k != "int" and not (fty.k == "adt" and fty.s in TYPE_RANGE):
             return TOP
         tr = TYPE_RANGE.get(fty.s, TOP)
         if fs[idx]["pub"]:
@@ -543,6 +544,11 @@ class Prover:
                 inner = self._rng(t[2][0], bb, d)
                 tr = self._by_type(t)
                 return meet(inner, tr) if inner[0] >= tr[0] and inner[1] <= tr[1] else tr
+            if n.startswith("core::num::<impl u") and n.split("::")[-1] in ("wrapping_add", "wrapping_sub", "wrapping_mul"):
+                # (also the modelled operators of Wrapping<uN>, whose call site returns `()` for `+=`)
+                ity = n[len("core::num::<impl "):].split(">")[0]
+                if ity in TYPE_RANGE:
+                    return TYPE_RANGE[ity]
             return self._by_type(t)
         if k in ("index", "cindex"):
             # element of a byte array / slice
